@@ -2,16 +2,14 @@ package main
 
 import (
 	"fmt"
-	"time"
 
 	"verifharness/internal/fx"
 )
 
 func main() {
-	t0 := time.Now()
 	a := fx.NewApp()
 	defer a.Close()
-	fmt.Println("app up in", time.Since(t0), "height", a.LastBlockHeight())
-	p := a.FeedsKeeper.GetParams(a.Ctx)
-	fmt.Printf("%+v\n", p)
+	for i, acc := range a.Accounts() {
+		fmt.Println(i, a.BankKeeper.GetAllBalances(a.Ctx, acc.Address))
+	}
 }
